@@ -4,6 +4,7 @@ open RV.C01
 #print axioms refine_history
 #print axioms triples_shape_complete
 #print axioms binop_spec
+#print axioms memory_refines_quadset
 #print axioms iter_sound
 #print axioms simple_refine_history
 #print axioms pinned_has_context_yields_ghost
